@@ -68,6 +68,23 @@ STRENGTHENED = {
  'C18-F': 'missed at first: the analytic query now has an item with an OVER (... WHEN ...) gate; the race detector reports it',
  'C20-E': 'missed at first: added the query kind `merge_objects` (merge_agg / first_value / last_value over nested objects)',
  'C20-F': 'missed at first: added type-twin instances checked against a direct reference (`c20types`)',
+ 'C01-G': 'missed at first: added processing-time cases in which one delivery is slow (`Stall`), so that the next window boundary passes while the previous result is still being handed over',
+ 'C08-H': 'missed at first: added sliding back-pressure cases `c08bp` (window output buffer 1, slow sink, dense burst, then quiet)',
+ 'C12-G': 'missed at first: added zero-padded numeric literals (`007`, `0.50`) on both paths',
+ 'C14-G': 'missed at first (a wrapper around a gated analytic call followed whatever the engine did): both documented readings are computed and the output must equal one of them on every row',
+ 'C05-G': 'missed at first: NOT over a comparison with a NULL / missing operand is now judged by a three-valued reference on all three paths',
+ 'C05-H': 'missed at first: added rows that carry no field at all (compared by position on the three paths)',
+ 'C06-H': 'missed at first: added the string-ordering site stream (`c06strord`: the same text comparison in WHERE, CASE, HAVING and a function argument must agree; kind `strord.site_differs`)',
+ 'C04-H': 'missed at first: added an abs() function key that cannot be evaluated on NULL rows, followed by a back-quoted key',
+ 'C07-G': 'missed at first: added a comparison of the group column with a text that spells a keyword (`k != \'case\' AND …`)',
+ 'C09-G': 'missed at first: added the stream `c09ttl` (keys fed steadily under STATETTL must not be reaped in the middle of a batch)',
+ 'C09-H': 'missed at first: the public TriggerWindow hook is now called while keys hold partial batches (a counting window fires on the count only)',
+ 'C10-G': 'missed at first: the `bridge` pattern now leaves half of the earlier sessions unbridged, so that the session listed last is the first to expire',
+ 'C10-H': 'missed at first: added sources that stay silent for more than a day of event time (all timestamps far in the past)',
+ 'C16-H': 'missed at first: added the history step `reload` (the table is registered again under the same name between rows)',
+ 'C17-H': 'missed at first: single group column holding NULL next to the texts `\\\\N`, `\\\\\\\\N`, `NULL`',
+ 'C18-G': 'missed at first (event timestamps never went back): producers now send event-time rows in blocks whose late rows re-emit fired windows while on-time rows keep the watermark moving; reported as `lifecycle.hang`',
+ 'C20-H': 'missed at first: added MATCH_RECOGNIZE instances whose DEFINE cannot be evaluated on some rows (division by zero), paired with another pattern query over the same field names',
 }
 rows = []
 n = caught = 0
@@ -111,7 +128,7 @@ new7 = '''## 7. Trusting the monitors: seeded changes
    worktree, and asked for two realistic changes (A, B) that break the property while the library still compiles
    and its suite still passes, each needing something specific to manifest, with a demonstration test.  A second
    round of fresh sub-agents (again only the property text, plus the one-line titles of A and B so as not to
-   repeat them) produced two more per property (C, D), and a third round two more (E, F).  Each
+   repeat them) produced two more per property (C, D), a third round two more (E, F) and a fourth round two more (G, H).  Each
    change was kept only after it was confirmed here (`tools/seedcheck.py`, scratch worktree of /repo HEAD): the
    patch applies and builds, the demonstration FAILS with it and PASSES without it, the unedited suite passes
    with it; then the property's quick check was run against the patched tree (a scratch copy of /verif whose
